@@ -910,7 +910,9 @@ _replay_before_magic = replay
 
 def run(ctx):
     if ctx.search:
+        state = ctx.rng.getstate()      # the search streams that follow keep their own draws
         magic_values(ctx, world(), Batch(ctx))
+        ctx.rng.setstate(state)
         if ctx.failures:
             return
         _run_before_magic(ctx)
@@ -928,3 +930,10 @@ def replay(ctx, payload):
         B.flush()
         return
     _replay_before_magic(ctx, payload)
+SPEC['manifest']['text'] += (' MAGIC NUMBERS (sampled, every run): 4-byte patterns equal to the constructor ids of Bool, to a seeded sample of other registered ids '
+                             'and to the 4-byte / wide-int literals of the current tl/generator.py and tl/block.py, in both byte orders, are planted into every '
+                             'int-like leaf (int, #, long halves, int128/int256, vector elements, nested objects, conditional fields) of a value of every covered '
+                             'constructor, into the flags word where its bits agree with the fields present, and as whole bytes contents; same oracle '
+                             '(independent encoder, type-strict round trip, consumed == length).')
+SPEC['rule'] += ('; magic numbers: Bool ids round-robin over every int-like leaf of one value per covered constructor + one value with random patterns '
+                 '(registered ids, source literals; both byte orders), flags word = pattern, bytes content = pattern')
